@@ -376,7 +376,15 @@ def b_ord(ex, st, args, kwargs, node):
 
 def b_isinstance(ex, st, args, kwargs, node):
     v, t = args
-    types_ = [x.obj for x in t.items] if isinstance(t, VTuple) else [t.obj]
+    def ty(x):
+        if isinstance(x, VConst):
+            return x.obj
+        nm = getattr(x, "name", None)
+        m = {"str": str, "int": int, "bool": bool, "tuple": tuple, "list": list, "type": type}
+        if nm in m:
+            return m[nm]
+        raise Unsupported(f"isinstance against {x!r}")
+    types_ = [ty(x) for x in t.items] if isinstance(t, VTuple) else [ty(t)]
     yield VBool(any(_isinst(v, ty) for ty in types_)), st
 
 
